@@ -826,7 +826,36 @@ def rule_f(chk: Check, eng: Engine) -> None:
                 "a tree violating a constraint is emitted as a solution", keyparts="not-convex|" + "|".join(sorted(p.split(' ')[0] for p in problems)))
 
 
+def rule_g(chk: Check, eng: Engine) -> None:
+    """R02-g: the verdict of a scored constraint is `all(score == 1.0)`, and the evaluator compares the mean of the scores
+    with the threshold - so a combination that does not hold must never score 1.0 in float arithmetic."""
+    cls = eng.cls("fandango.constraints.comparison", "ComparisonConstraint")
+    sites, lst = cf.score_sites(eng, cls)
+    if not sites:
+        raise AnalysisError("ComparisonConstraint.fitness: no score is appended any more")
+    loops = [n for n in ast.walk(sites[0].fn.node) if isinstance(n, (ast.For, ast.While))]
+    for st in sites:
+        fn = st.fn
+        in_loop = any(l.lineno <= st.line <= (l.end_lineno or l.lineno) for l in loops)
+        if st.via == "literal":
+            if st.failing.may_equal(1.0) and in_loop:
+                chk.bad("R02-g", eng.relfile(fn), st.line, fn.fq, f"`{lst}.append({short(st.expr)})` scores a combination 1.0 without evaluating it",
+                        "an unevaluated combination counts as satisfied", keyparts="literal-one-in-loop")
+            else:
+                chk.ok("R02-g", fn.fq, st.line, f"`{lst}.append({short(st.expr)})`: score {st.failing}" + ("" if in_loop else " (outside the combination loop: vacuous truth, R07-d)"))
+            continue
+        if st.failing.may_equal(1.0):
+            chk.bad("R02-g", eng.relfile(fn), st.line, fn.fq,
+                    f"when the comparison does not hold, the score from {st.via} ranges over {st.failing}, which includes 1.0",
+                    "the verdict is `all(score == 1.0)` and the evaluator compares the mean score with the threshold: a violated comparison "
+                    "that scores 1.0 (e.g. a distance that rounds to 0) makes the tree a solution", keyparts="failing-score-may-be-one")
+        else:
+            chk.ok("R02-g", fn.fq, st.line, f"failing comparison scores {st.failing} via {st.via}: never 1.0")
+
+
 def run(chk: Check, eng: Engine) -> None:
+    chk.rule("R02-g", "a comparison that does not hold never scores 1.0 (interval interpretation of the scoring helper in float arithmetic)", floor=3)
+    rule_g(chk, eng)
     chk.rule("R02-f", "in real arithmetic the value compared with the acceptance threshold is a convex combination of the per-class mean fitness values, "
              "with positive weight for every non-empty constraint class - so it reaches 1 only if every class mean is 1", floor=2)
     rule_f(chk, eng)
@@ -880,8 +909,13 @@ MUTANTS = [
       "                    yield from self.evaluator.evaluate_individual(child)\n                    yield child\n                else:\n", "R02-d"),
     M("padding-without-best-effort", _API, "            if warnings_are_errors:\n                raise FandangoFailedError(\n                    \"Failed to find the required number of perfect solutions\"\n                )\n            elif best_effort:\n",
       "            if warnings_are_errors:\n                raise FandangoFailedError(\n                    \"Failed to find the required number of perfect solutions\"\n                )\n            else:\n", "R02-e"),
+    M("distance-made-live", _CMP, "    if dist is float | int:\n", "    if isinstance(dist, (int, float)):\n", "R02-g"),
+    M("no-distance-scores-one", _CMP, "        fitness = (1.0 - dist_norm) if dist_norm is not None else 0.0\n", "        fitness = (1.0 - dist_norm) if dist_norm is not None else 1.0\n", "R02-g"),
+    M("unevaluated-combination-scores-one", _CMP, "            has_combinations = True\n", "            has_combinations = True\n            if not combination:\n                fitness_values.append(1.0)\n                continue\n", "R02-g"),
 ]
 TWINS = [
+    M("twin-distance-live-but-clamped", _CMP, "    if dist is float | int:\n        dist = 2 * (_sigmoid(abs(dist)) - 0.5)\n        return dist\n",
+      "    if isinstance(dist, (int, float)):\n        dist = 2 * (_sigmoid(abs(dist)) - 0.5)\n        return max(dist, 1e-9)\n", None),
     M("twin-extract-acceptance-predicate", _EV, "        if fitness >= self._expected_fitness and key not in self._solution_set:\n            self._solution_set.add(key)\n            yield individual\n",
       "        if self._reaches_threshold(fitness) and key not in self._solution_set:\n            self._solution_set.add(key)\n            yield individual\n", None,
       more=(("    def evaluate_population(self, population: list[DerivationTree]) -> Generator[\n        DerivationTree,\n        None,\n        list[tuple[DerivationTree, float, list[FailingTree], Suggestion]],\n    ]:\n        evaluation = []",
